@@ -137,6 +137,7 @@ def run(ctx):
     ctx.rule("C03.wrap-awkward", "VectorAwkward._wrap_result summary (record name, coordinate fields, carried fields, depth_limit) equals the specification for every field spelling set")
 
     _duck_typed_kernels(ctx)
+    _value_preserving_fill(ctx)
 
     # ---- (1) who may call
     n_sites = 0
@@ -350,3 +351,28 @@ def _duck_typed_kernels(ctx):
         ctx.ob("C03.duck-typed-kernels", name, not bad,
                "; ".join(f"line {ln}: {k} - {why}" for ln, k, why in bad[:3]), {"constructs": [[ln, k] for ln, k, _ in bad]}, fn_where(fn))
     ctx.anchor("compute kernels examined", n, 2400)
+
+
+_LIKE_FILLS = {"ak.full_like", "ak.zeros_like", "ak.ones_like", "awkward.full_like", "awkward.zeros_like", "awkward.ones_like",
+               "numpy.full_like", "numpy.zeros_like", "numpy.ones_like", "numpy.empty_like", "np.full_like", "np.zeros_like", "np.ones_like", "np.empty_like"}
+
+
+def _value_preserving_fill(ctx):
+    """a scalar result component (an imputed keyword coordinate, a constant) is expanded to the array's shape without being cast"""
+    ctx.rule("C03.value-preserving-fill",
+             "the _wrap_result of every backend builds array components from scalar results only with shape-broadcasting calls (ak.broadcast_arrays, "
+             "numpy broadcasting on assignment into numpy.empty with the component's own dtype): a *_like fill (ak.full_like, numpy.full_like, zeros_like, "
+             "ones_like, empty_like) takes the dtype of another component, so a float coordinate given for an integer-typed array would be truncated "
+             "where the object backend keeps it")
+    n = 0
+    for relp in ("src/vector/backends/awkward.py", "src/vector/backends/numpy.py", "src/vector/backends/object.py", "src/vector/backends/sympy.py"):
+        mf = facts(relp, ctx.repo)
+        for cname, cnode in mf.classes.items():
+            for st in cnode.body:
+                if isinstance(st, ast.FunctionDef) and st.name == "_wrap_result":
+                    n += 1
+                    bad = [(c.lineno, unparse(c.func)) for c in ast.walk(st) if isinstance(c, ast.Call) and unparse(c.func) in _LIKE_FILLS]
+                    ctx.ob("C03.value-preserving-fill", f"{cname}._wrap_result", not bad,
+                           "; ".join(f"line {ln}: {fn}(template, value) casts the value to the template's dtype" for ln, fn in bad[:3]),
+                           {"calls": bad}, f"{relp}:{st.lineno}")
+    ctx.anchor("_wrap_result implementations", n, 10)
